@@ -133,7 +133,9 @@ func callRecv(c ssa.CallInstruction) ssa.Value {
 // ---- value chasing ----
 
 // strip removes representation-only wrappers.
-func strip(v ssa.Value) ssa.Value {
+func strip(v ssa.Value) ssa.Value { return stripSeen(v, nil) }
+
+func stripSeen(v ssa.Value, seen map[*ssa.Phi]bool) ssa.Value {
 	for {
 		switch x := v.(type) {
 		case *ssa.ChangeType:
@@ -145,18 +147,29 @@ func strip(v ssa.Value) ssa.Value {
 		case *ssa.ChangeInterface:
 			v = x.X
 		case *ssa.Phi:
-			// phi of identical values
+			// phi of identical values (edges that lead back to the phi itself, as in loops, do not count)
+			if seen[x] {
+				return v
+			}
+			if seen == nil {
+				seen = map[*ssa.Phi]bool{}
+			}
+			seen[x] = true
 			var one ssa.Value
 			same := true
 			for _, e := range x.Edges {
-				e = strip(e)
+				e = stripSeen(e, seen)
+				if e == ssa.Value(x) {
+					continue
+				}
 				if one == nil {
 					one = e
 				} else if one != e {
 					same = false
 				}
 			}
-			if same && one != nil && one != ssa.Value(x) {
+			delete(seen, x)
+			if same && one != nil {
 				v = one
 			} else {
 				return v
